@@ -26,6 +26,11 @@ KERNELS = [
     # ---- _rpc/_verification.py ---------------------------------------------------------------
     K("k_cmd_type_mask", "_rpc/_verification.py", "Command.unpack", ("callarg", "CommandType", 0, 0), [("cmd_field", Z)], Z, props=P12),
     K("k_cmd_flags_mask", "_rpc/_verification.py", "Command.unpack", ("callarg", "CommandFlags", 0, 0), [("cmd_field", Z)], Z, props=P12),
+    # guard added by the D9 repair (`if len(view) < 4: raise ValueError`) and the END test behind it; on a tree
+    # without the repair both selectors miss / are untranslatable and the committed fallbacks are used
+    K("k_vt_guard", "_rpc/_verification.py", "VerificationTrailer.unpack", ("if", 1), [("len_view", Z)], B, props=P12),
+    K("k_vt_end_mask", "_rpc/_verification.py", "VerificationTrailer.unpack", ("if", 2),
+      [("cmd_flags", Z), ("CommandFlags_SEC_VT_COMMAND_END", Z)], Z, props=P12),
     # ---- _epm.py -----------------------------------------------------------------------------
     K("k_floor_offset", "_epm.py", "Floor.unpack", ("assign", "offset", 0), [("lhs_len", Z)], Z, props=P1218),
     K("k_eptmap_pack_pad", "_epm.py", "EptMap.pack", ("assign", "tower_padding", 0), [("len_b_tower", Z)], Z, props=P12),
@@ -34,6 +39,9 @@ KERNELS = [
       [("len_b_t", Z), ("idx", Z), ("len_self_towers", Z)], Z, props=P1218),
     K("k_eptres_unpack_pad", "_epm.py", "EptMapResult.unpack", ("assign", "padding", 0), [("tower_length", Z)], Z, props=P1218),
     K("k_referent_skip", "_epm.py", "EptMapResult.unpack", ("assign", "tower_data_offset", 0), [("tower_count", Z)], Z, props=P1218),
+    # guard added by the D12 repair (`if 48 + tower_data_offset > len(view): raise ValueError`)
+    K("k_eptres_count_guard", "_epm.py", "EptMapResult.unpack", ("if", 1),
+      [("tower_data_offset", Z), ("len_view", Z)], B, props=P1218),
     # ---- _client.py --------------------------------------------------------------------------
     K("k_ept_status_bad", "_client.py", "_process_ept_map_result", ("if", 0), [("map_response_status", Z)], B, props=("C18",)),
 ]
